@@ -897,3 +897,117 @@ for _helper, _req in (
                    iff(src_mem(result, N, n), S_of(K_LOWER_UPPER, lower, upper, N, n)),
                    'constructed-with-the-parameters-it-requires': lambda result: src_ok(result),
                }, raises_only=())
+
+# ------------------------------------------------------------------------------ several ranges: the segments transformer
+# `_TransformMethodOfSegments.transform` yields exactly the lines whose number is <= head, in a body segment, or
+# >= tail -- given head/body/tail in the normal form that `merge` ensures (`parts_nf`).  Stated for an arbitrary
+# line number n through the ghost maps of the yielded sequence: src(k) = index of the input line that the k-th
+# item is, pos_of(i) = position in the output of input line i.
+
+SEGMENTS = Inst(T.SegmentsWithPositiveIncreasingValues, head=Opt(Int), body=BODY, tail=Opt(Int))
+SEGMENTS_TRANSFORMER = Inst(T._TransformMethodOfSegments, _segments=SEGMENTS,
+                            _invariant=lambda self: parts_nf(self._segments.head, self._segments.body,
+                                                             self._segments.tail))
+
+
+def selected(sg, n):
+    return in_parts(sg.head, sg.body, sg.tail, n)
+
+
+def items_are_input_lines_in_order(yielded, X, p):
+    """every item is one of the first p input lines; the items come in the order of the input"""
+    return forall_range(0, len(yielded), lambda k: 0 <= yielded.src(k) and yielded.src(k) < p
+                                                   and yielded[k] == X[yielded.src(k)]) \
+        and forall_range(0, len(yielded) - 1, lambda k: yielded.src(k) < yielded.src(k + 1))
+
+
+def only_selected(yielded, sg, n):
+    """if line n has been yielded, it is selected"""
+    return (not exists_range(0, len(yielded), lambda k: yielded.src(k) == n - 1)) or selected(sg, n)
+
+
+def yielded_at(yielded, i):
+    """input line i (0-based) is in the output, at position pos_of(i)"""
+    return 0 <= yielded.pos_of(i) and yielded.pos_of(i) < len(yielded) and yielded.src(yielded.pos_of(i)) == i
+
+
+def none_lost(yielded, sg, p, n):
+    """if line n is selected and among the first p lines, it has been yielded"""
+    return (not (1 <= n and n <= p and selected(sg, n))) or yielded_at(yielded, n - 1)
+
+
+def progress(yielded, X, sg, p, n):
+    return 0 <= p and p <= len(X) and items_are_input_lines_in_order(yielded, X, p) \
+        and only_selected(yielded, sg, n) and none_lost(yielded, sg, p, n)
+
+
+def prev_end_is(sg, b, v):
+    """v is the last line number selected before body segment b: the end of segment b-1, or the head, or 0"""
+    return (b == 0 and sg.head is None and v == 0) or (b == 0 and sg.head is not None and v == sg.head) \
+        or (b > 0 and v == sg.body[b - 1][1])
+
+
+def at_or_before(sg, b, p, N):
+    """p lines have been read when segment b is about to be handled: everything up to the end of what precedes
+    segment b, or the whole text if it ends before that"""
+    return exists_prev_end(sg, b, lambda v: p <= v and (p == N or p == v))
+
+
+def exists_prev_end(sg, b, pred):
+    return (b == 0 and sg.head is None and pred(0)) or (b == 0 and sg.head is not None and pred(sg.head)) \
+        or (b > 0 and pred(sg.body[b - 1][1]))
+
+
+_Q_SEG = P_SRC + ':_TransformMethodOfSegments.transform'
+
+M.contract(_Q_SEG, params=dict(self=SEGMENTS_TRANSFORMER, lines=LINES), yields=ListOf(Str), ghosts=dict(n=Int),
+           ensures={
+               'every-item-is-an-input-line-and-the-order-is-kept': lambda lines, yielded:
+               items_are_input_lines_in_order(yielded, lines.xs, len(lines.xs)),
+               'only-selected-lines': lambda self, yielded, n: only_selected(yielded, self._segments, n),
+               'no-selected-line-is-lost': lambda self, lines, yielded, n:
+               none_lost(yielded, self._segments, len(lines.xs), n),
+           }, raises_only=())
+
+# loop 0: the head
+M.loop(_Q_SEG, 0,
+       invariant=lambda _i, segments, lines, line_num, end, yielded, n:
+       line_num == _i and _i < end and progress(yielded, lines.xs, segments, _i, n),
+       modifies=dict(line_num=Int, line='local', yielded='len'))
+
+# loop 1: the body segments (index _i); lines.pos lines have been read
+M.loop(_Q_SEG, 1,
+       invariant=lambda _i, segments, lines, line_num, yielded, n:
+       line_num == lines.pos and at_or_before(segments, _i, lines.pos, len(lines.xs))
+       and progress(yielded, lines.xs, segments, lines.pos, n),
+       modifies=dict(line_num=Int, start_m1=Int, end=Int, body_segment='local', line='local', _='local',
+                     yielded='len', lines='iter'))
+
+# loop 2: skip the lines before body segment _o
+M.loop(_Q_SEG, 2,
+       invariant=lambda _i, _o, _start, segments, lines, line_num, start_m1, yielded, n:
+       line_num == _i and progress(yielded, lines.xs, segments, _i, n)
+       and (_start == len(lines.xs)
+            or (_i < start_m1 and exists_prev_end(segments, _o, lambda v: v <= _i))),
+       modifies={'line_num': Int, '_': 'local'})
+
+# loop 3: the lines of body segment _o
+M.loop(_Q_SEG, 3,
+       invariant=lambda _i, _o, _start, segments, lines, line_num, start_m1, end, yielded, n:
+       line_num == _i and progress(yielded, lines.xs, segments, _i, n)
+       and (_start == len(lines.xs) or (start_m1 <= _i and _i < end)),
+       modifies=dict(line_num=Int, line='local', yielded='len'))
+
+# loop 4: skip the lines before the tail
+M.loop(_Q_SEG, 4,
+       invariant=lambda _i, _start, segments, lines, line_num, start_m1, yielded, n:
+       line_num == _i and progress(yielded, lines.xs, segments, _i, n)
+       and (_start == len(lines.xs)
+            or (_i < start_m1 and exists_prev_end(segments, len(segments.body), lambda v: v <= _i))),
+       modifies={'line_num': Int, '_': 'local'})
+
+# loop 5: the tail
+M.loop(_Q_SEG, 5,
+       invariant=lambda _i, _start, segments, lines, start_m1, yielded, n:
+       progress(yielded, lines.xs, segments, _i, n) and (_start == len(lines.xs) or start_m1 <= _i),
+       modifies=dict(line='local', yielded='len'))
